@@ -26,6 +26,7 @@ import (
 	"sync"
 	"time"
 
+	"github.com/cloudwego/eino/callbacks"
 	"github.com/cloudwego/eino/components/tool"
 	"github.com/cloudwego/eino/compose"
 	"github.com/cloudwego/eino/schema"
@@ -39,6 +40,11 @@ type c09Flight struct {
 	Objs  int    `json:"objs"`            // compiled objects the runs are spread over (call.Obj)
 	Inner int    `json:"inner,omitempty"` // 0: plain tools; m>0: every tool call delegates to an inner tools node with m leaf calls
 	Tool  string `json:"tool,omitempty"`  // i|s|is : the outer tool is invokable / streamable / both
+	// variant hold-at: a stateful graph START -> a -> b -> fin; call 0 of a wave is PARKED inside user
+	// code of its own run (generator = the WithGenLocalState generator, pre-handler = the state
+	// pre-handler of b, node = the body of a, callback = its own OnStart handler at a) until every
+	// other run of the wave, started after it has parked, has returned
+	Hold string `json:"hold,omitempty"`
 }
 
 // ---- generator ----
@@ -47,11 +53,17 @@ type c09Flight struct {
 // big ones (barrier variant, nested variant), later ones are smaller
 func c09GenFlight(r *vh.Rand, k int, thorough bool) c09Case {
 	c := c09Case{Kind: "inflight", Seed: r.U64() % 1000000, Reps: 1}
+	if k >= 2 && k <= 5 { // the four hold-at variants open every run
+		return c09GenHold(r, k-2, c)
+	}
+	if k > 5 && k%2 == 0 {
+		return c09GenHold(r, k/2, c)
+	}
 	f := &c09Flight{Mode: []string{"chain", "pregel", "workflow", "dag"}[(k+r.Intn(2))%4], Objs: 1, Tool: []string{"i", "i", "s", "is"}[r.Intn(4)]}
 	if r.Chance(35) {
 		f.Objs = 2
 	}
-	nested := k%2 == 1
+	nested := k%2 == 1 && (k < 6 || k%4 == 1)
 	var n, calls int
 	switch {
 	case k < 2 && nested:
@@ -114,9 +126,39 @@ func c09GenFlight(r *vh.Rand, k int, thorough bool) c09Case {
 	return c
 }
 
+func c09GenHold(r *vh.Rand, k int, c c09Case) c09Case {
+	c.FL = &c09Flight{Mode: []string{"pregel", "chain", "workflow", "dag"}[r.Intn(4)], Objs: 1,
+		Hold: []string{"generator", "pre-handler", "node", "callback"}[k%4]}
+	c.Reps = r.Range(1, 2)
+	n := r.Range(3, 8)
+	poff := r.Intn(4)
+	for i := 0; i < n; i++ {
+		c.Calls = append(c.Calls, c09Call{In: fmt.Sprintf("r%d", i), Paradigm: c09Paradigms[(i+poff)%4], Chunks: r.Range(1, 2)})
+	}
+	// model: run 0 enters its section, the others run (twice each, shuffled), run 0 leaves
+	var others []int
+	for i := 1; i < n; i++ {
+		others = append(others, i, i)
+	}
+	c.Sched = append([]int{0}, c09Shuffle(r, others)...)
+	c.Sched = append(c.Sched, 0, 0)
+	return c
+}
+
 // ---- the model's view ----
 
 func c09FlightOracleCase(c *c09Case) any {
+	if c.FL.Hold != "" {
+		toks := []string{}
+		for _, k := range c.Calls {
+			toks = append(toks, k.In)
+		}
+		sched := c.Sched
+		if sched == nil {
+			sched = []int{}
+		}
+		return map[string]any{"family": "inflight", "hold": c.FL.Hold, "toks": toks, "sched": sched}
+	}
 	type orun struct {
 		Tok   string `json:"tok"`
 		Calls int    `json:"calls"`
@@ -420,6 +462,11 @@ func c09FlightRunner(c *c09Case, rs []compose.Runnable[*schema.Message, string])
 
 func c09FlightAccount(ctx *vh.Ctx, c *c09Case) string {
 	f := c.FL
+	if f.Hold != "" {
+		ctx.Res.Dist("inflight:hold-at=" + f.Hold)
+		ctx.Res.Dist("inflight:hold:mode:" + f.Mode)
+		return fmt.Sprintf("hold-at=%s/%s/runs%d", f.Hold, f.Mode, len(c.Calls))
+	}
 	ctx.Res.Dist("inflight:mode:" + f.Mode)
 	ctx.Res.Dist(fmt.Sprintf("inflight:objects:%d", f.Objs))
 	ctx.Res.Dist("inflight:tool:" + f.Tool)
@@ -450,4 +497,162 @@ func c09FlightAccount(ctx *vh.Ctx, c *c09Case) string {
 	ctx.Res.Dist("inflight:tool-calls-in-flight:" + bucket(total))
 	ctx.Res.Dist("inflight:extra-goroutine-calls:" + bucket(extra))
 	return fmt.Sprintf("%s/o%d/inner%d/%s/runs%s/calls%s/sizes%d", f.Mode, f.Objs, f.Inner, f.Tool, bucket(len(c.Calls)), bucket(total), len(sizes))
+}
+
+// ---- variant hold-at ----
+
+type c09HoldWave struct {
+	mu       sync.Mutex
+	others   int
+	entered  chan struct{}
+	back     chan struct{}
+	once     sync.Once
+	timedOut bool
+}
+
+type c09HoldRun struct {
+	w      *c09HoldWave
+	parked bool
+}
+
+type c09HoldKey struct{}
+
+// park: called at every hold point of every run; only the parked run of a concurrent wave waits
+func c09Park(ctx context.Context, where, at string) {
+	hr, _ := ctx.Value(c09HoldKey{}).(*c09HoldRun)
+	if hr == nil || !hr.parked || where != at {
+		return
+	}
+	first := false
+	hr.w.once.Do(func() { first = true; close(hr.w.entered) })
+	if !first {
+		return
+	}
+	select {
+	case <-hr.w.back:
+	case <-time.After(12 * time.Second):
+		hr.w.mu.Lock()
+		hr.w.timedOut = true
+		hr.w.mu.Unlock()
+	}
+}
+
+func c09BuildHold(c *c09Case) (compose.Runnable[string, string], error) {
+	ctx := context.Background()
+	at := c.FL.Hold
+	gen := compose.WithGenLocalState(func(ctx context.Context) *c09State {
+		c09Park(ctx, "generator", at)
+		return &c09State{}
+	})
+	a := compose.InvokableLambda(func(ctx context.Context, in string) (string, error) {
+		c09Park(ctx, "node", at)
+		return in + "|a", nil
+	})
+	b := compose.InvokableLambda(func(ctx context.Context, in string) (string, error) { return in + "|b", nil })
+	pre := compose.WithStatePreHandler(func(ctx context.Context, in string, s *c09State) (string, error) {
+		c09Park(ctx, "pre-handler", at)
+		s.N++
+		return in, nil
+	})
+	switch c.FL.Mode {
+	case "chain":
+		return compose.NewChain[string, string](gen).
+			AppendLambda(a, compose.WithNodeKey("a"), compose.WithNodeName("a")).
+			AppendLambda(b, compose.WithNodeKey("b"), compose.WithNodeName("b"), pre).
+			AppendLambda(c09Fin(), compose.WithNodeKey("fin")).Compile(ctx)
+	case "workflow":
+		wf := compose.NewWorkflow[string, string](gen)
+		wf.AddLambdaNode("a", a, compose.WithNodeName("a")).AddInput(compose.START)
+		wf.AddLambdaNode("b", b, compose.WithNodeName("b"), pre).AddInput("a")
+		wf.AddLambdaNode("fin", c09Fin()).AddInput("b")
+		wf.End().AddInput("fin")
+		return wf.Compile(ctx)
+	}
+	g := compose.NewGraph[string, string](gen)
+	if err := g.AddLambdaNode("a", a, compose.WithNodeName("a")); err != nil {
+		return nil, err
+	}
+	if err := g.AddLambdaNode("b", b, compose.WithNodeName("b"), pre); err != nil {
+		return nil, err
+	}
+	if err := g.AddLambdaNode("fin", c09Fin()); err != nil {
+		return nil, err
+	}
+	for _, e := range [][2]string{{compose.START, "a"}, {"a", "b"}, {"b", "fin"}, {"fin", compose.END}} {
+		if err := g.AddEdge(e[0], e[1]); err != nil {
+			return nil, err
+		}
+	}
+	var copts []compose.GraphCompileOption
+	if c.FL.Mode == "dag" {
+		copts = append(copts, compose.WithNodeTriggerMode(compose.AllPredecessor))
+	}
+	return g.Compile(ctx, copts...)
+}
+
+func c09HoldRunner(c *c09Case, r compose.Runnable[string, string]) c09Runner {
+	var mu sync.Mutex
+	waves := map[int]*c09HoldWave{}
+	at := c.FL.Hold
+	return func(ci, rep int, phase string) (obs c09Obs) {
+		call := c.Calls[ci]
+		ctx := context.Background()
+		var w *c09HoldWave
+		parked := false
+		if phase == "conc" {
+			mu.Lock()
+			w = waves[rep]
+			if w == nil {
+				w = &c09HoldWave{others: len(c.Calls) - 1, entered: make(chan struct{}), back: make(chan struct{})}
+				if w.others == 0 {
+					close(w.back)
+				}
+				waves[rep] = w
+			}
+			mu.Unlock()
+			parked = ci == 0
+			ctx = context.WithValue(ctx, c09HoldKey{}, &c09HoldRun{w: w, parked: parked})
+			if !parked { // the other runs start once run 0 is inside its section
+				select {
+				case <-w.entered:
+				case <-time.After(12 * time.Second):
+				}
+			}
+		}
+		defer func() {
+			if p := recover(); p != nil {
+				obs = c09Obs{Err: "panic", Msg: fmt.Sprint(p)}
+			}
+			if w == nil {
+				return
+			}
+			if !parked {
+				w.mu.Lock()
+				w.others--
+				if w.others == 0 {
+					close(w.back)
+				}
+				w.mu.Unlock()
+				return
+			}
+			w.mu.Lock()
+			to := w.timedOut
+			w.mu.Unlock()
+			if to && obs.Err == "" {
+				obs = c09Obs{Err: "others-held-up", Msg: "the other runs of the compiled object had not returned 12 s after run 0 parked inside its own " + at + " (out: " + obs.Out + ")"}
+			}
+		}()
+		opts := []compose.Option{compose.WithCallbacks(callbacks.NewHandlerBuilder().
+			OnStartFn(func(ctx context.Context, info *callbacks.RunInfo, in callbacks.CallbackInput) context.Context {
+				if info != nil && info.Name == "a" {
+					c09Park(ctx, "callback", at)
+				}
+				return ctx
+			}).Build())}
+		out, err := c09RunParadigm(ctx, r, call, opts)
+		if err != nil {
+			return c09Obs{Err: c09ErrClass(err), Msg: err.Error()}
+		}
+		return c09Obs{Out: out}
+	}
 }
